@@ -13,6 +13,7 @@ import (
 	"os"
 	"sort"
 	"strconv"
+	"strings"
 	"sync"
 	"time"
 
@@ -353,6 +354,8 @@ func (e *env) finish(h0 int64) error {
 }
 
 // finishGuarded runs finish with a watchdog: a deadlock (lock left held by a recovered panic) is a wedge too.
+var wedgesSeen int
+
 func (e *env) finishGuarded(h0 int64) (err error, panicked interface{}, stack string) {
 	done := make(chan struct{})
 	go func() {
@@ -361,11 +364,20 @@ func (e *env) finishGuarded(h0 int64) (err error, panicked interface{}, stack st
 	}()
 	// escalating deadlines (30 + 60 + 120 s): honest traffic needs milliseconds of CPU; only a node blocked on a lock
 	// or a full queue is still not through after all of them, and then its goroutine is parked inside the consensus code
-	for _, d := range []time.Duration{30 * time.Second, 60 * time.Second, 120 * time.Second} {
+	for i, d := range []time.Duration{30 * time.Second, 60 * time.Second, 120 * time.Second} {
 		select {
 		case <-done:
 			return
 		case <-time.After(d):
+		}
+		// a goroutine that waits for a mutex in two samples, 30 s (90 s for the first such case of this process) after
+		// the honest traffic started, is not slow: nobody runs that could release the lock (the driver plays every
+		// goroutine of the node itself).  Concluding here keeps several wedged inputs inside the driver's time limit.
+		if i >= 1 || wedgesSeen > 0 {
+			if desc, parked := parkedIn("main.(*env).finish("); parked && (strings.Contains(desc, "[sync.Mutex.Lock") || strings.Contains(desc, "[sync.RWMutex") || strings.Contains(desc, "[semacquire")) {
+				wedgesSeen++
+				return fmt.Errorf("honest traffic did not get through and the goroutine that plays it waits for a lock nobody will release (lock left held by a recovered panic?)\n%s", desc), nil, ""
+			}
 		}
 	}
 	desc, parked := parkedIn("main.(*env).finish(")
